@@ -938,6 +938,14 @@ fn freqs(th: bool) -> Vec<u32> {
         v.push(f);
         f += if th { 1_000 } else { 25_000 };
     }
+    // Both synthesiser words are f * 2^k / 32 MHz: their fractional part - all that rounding depends on - is periodic
+    // in f with period 15 625 Hz. One full period at 1 Hz (in three bands, so that the integer part differs) meets
+    // every rounding case, including the exact ties, none of which lies on a 25 Hz grid.
+    for base in [433_175_000u32, 868_100_000, 915_200_000] {
+        for d in 0..15_625u32 {
+            v.push(base + d);
+        }
+    }
     v
 }
 
@@ -1257,7 +1265,7 @@ fn main() {
         "evaluations": ctx.evals(),
         "distinct_nontrivial": compared.load(Ordering::Relaxed),
         "per_operation": per_op_json,
-        "rule": "per shared operation the full product of its parameter domain, run on the real lora-phy driver and on Semtech's SWL2001 C driver (smtc-modem-cores) from the same register state: sleep warm/cold, standby, RF frequency (every 100 Hz LoRaWAN channel in thorough + stride over 137-1020 MHz), LoRa modulation parameters (SF x BW x CR x prior register values), packet parameters (preamble set x header x payload length x CRC x IQ x prior values), sync word (all 256), buffer base, buffer/FIFO writes of every length 0..255, TX start, IRQ masks per mode, IRQ clear, RX start with every symbol timeout, CAD per SF, image calibration per band, TX continuous wave, PA configuration + TX parameters for every power -128..127 x ramp x prior values, status reads; depth-2 sequences of the read-modify-write operations; depth-3 sequences X ; {sleep cold, sleep warm, standby, chip reset} ; Y of the same kind of operation on one driver instance (SX126x against the reference; SX127x against a fresh instance of the driver on the same registers, which the single-operation comparison ties to the reference). SX126x: equality of the canonical wire form (opcode + parameters with trailing NOPs trimmed, total bytes clocked); SX127x: equality of the chip-visible outcome (register file subset stated per operation, FIFO stream)",
+        "rule": "per shared operation the full product of its parameter domain, run on the real lora-phy driver and on Semtech's SWL2001 C driver (smtc-modem-cores) from the same register state: sleep warm/cold, standby, RF frequency (every 100 Hz LoRaWAN channel in thorough + stride over 137-1020 MHz + every 1 Hz of a full 15 625 Hz rounding period in three bands), LoRa modulation parameters (SF x BW x CR x prior register values), packet parameters (preamble set x header x payload length x CRC x IQ x prior values), sync word (all 256), buffer base, buffer/FIFO writes of every length 0..255, TX start, IRQ masks per mode, IRQ clear, RX start with every symbol timeout, CAD per SF, image calibration per band, TX continuous wave, PA configuration + TX parameters for every power -128..127 x ramp x prior values, status reads; depth-2 sequences of the read-modify-write operations; depth-3 sequences X ; {sleep cold, sleep warm, standby, chip reset} ; Y of the same kind of operation on one driver instance (SX126x against the reference; SX127x against a fresh instance of the driver on the same registers, which the single-operation comparison ties to the reference). SX126x: equality of the canonical wire form (opcode + parameters with trailing NOPs trimmed, total bytes clocked); SX127x: equality of the chip-visible outcome (register file subset stated per operation, FIFO stream)",
         "exhaustive": true,
     });
     let replayer = |cj: &Value| -> Vec<String> {
